@@ -225,7 +225,7 @@ func writeDerived(id string, info *derivedInfo) string {
 // error (C07 kernel contracts). A visitor type that overrides one of these Enter methods would silently
 // accept the construct for the part of the tree it handles, so no other type in package frontend may declare
 // them (derived, structural obligation over the method sets of the package).
-var unsupportedRules = []string{"Profile", "BulkImportQuery", "PeriodicCommitHint", "Union", "Command", "Foreach", "Start", "CaseExpression", "LegacyListExpression", "Reduce", "ExistentialSubquery", "LegacyParameter", "Explain", "LoadCSV", "InQueryCall", "StandaloneCall", "ListOperatorExpression", "ListComprehension", "PatternComprehension", "CreateUnique"}
+var unsupportedRules = []string{"Profile", "BulkImportQuery", "PeriodicCommitHint", "Union", "Command", "Foreach", "Start", "CaseExpression", "LegacyListExpression", "Reduce", "ExistentialSubquery", "LegacyParameter", "Explain", "LoadCSV", "InQueryCall", "StandaloneCall", "ListOperatorExpression", "ListComprehension", "PatternComprehension", "CreateUnique", "Hint", "CypherOption"}
 
 func unsupportedOverrides(w *World) (overrides []string, checked int) {
 	pkg := w.typesPkgs[repoModule+"/cypher/frontend"]
@@ -279,8 +279,7 @@ func unsupportedOverrides(w *World) (overrides []string, checked int) {
 // grammar rule added without a visitor, a visitor method that is removed, or an error method that is emptied.
 var transparentRules = map[string]string{
 	"Cypher": "start rule", "Statement": "pure alternation", "Query": "pure alternation",
-	"QueryOptions": "planner options: no effect on results", "AnyCypherOption": "planner options", "CypherOption": "planner options", "VersionNumber": "planner options", "ConfigurationOption": "planner options",
-	"Hint": "USING INDEX/SCAN/JOIN planner hint: no effect on results",
+	"QueryOptions": "pure structure (a possibly empty list of options)", "AnyCypherOption": "pure alternation",
 	"SortItem": "read by the order visitor through the rule context (ASC/DESC tokens)",
 	"AnonymousPatternPart": "pure structure", "PatternElement": "pure structure", "PatternElementChain": "pure structure",
 	"RelationshipsPattern": "pure structure (pattern predicate)", "RelationshipDetail": "read by the relationship pattern visitor", "RelationshipTypes": "pure structure", "RelType": "read by the parent", "Dash": "punctuation",
